@@ -3,7 +3,7 @@
    The constants come from Live/LiveTables.v (regenerated from the running code on every run). *)
 From Coq Require Import Reals Lra List QArith Qreals.
 From Coquelicot Require Import Coquelicot.
-From MuxV Require Import Base.Num Base.RInst Base.Interp Model.Atmos Proofs.InterpP Proofs.AtmosP Live.LiveTables.
+From MuxV Require Import Base.Num Base.RInst Base.Interp Model.Atmos Proofs.InterpP Proofs.AtmosP Live.LiveTables Base.Vec3 Model.FieldInterp Proofs.FieldInterpP.
 Import ListNotations.
 Local Open Scope R_scope.
 
@@ -156,3 +156,40 @@ Proof.
   - unfold in_a_layer. rewrite layersR_eq. cbn [inside]. left; lra.
   - unfold T_std. rewrite layersR_eq. cbn [Tmol]. destruct (Rlt_dec 5000 11000); [|lra]. unfold Tb; cbn; live. lra.
 Qed.
+
+(* field tables (x, y, z, value): in the simplex of the triangulation that contains the query point the value is the barycentric
+   combination of the four node values.  Whatever non-degenerate simplex the triangulation provides: every node value is returned
+   at its node, an affine field (density or the three wind columns) is reproduced exactly everywhere, the value inside the simplex
+   lies between the node values, and neighbouring simplices agree on their common face. *)
+Theorem C17_field_tables : forall (a b c d : v3 R), tet_volume6 a b c d <> 0 ->
+  (forall fa fb fc fd,
+     field_interp a b c d fa fb fc fd a = fa /\ field_interp a b c d fa fb fc fd b = fb /\
+     field_interp a b c d fa fb fc fd c = fc /\ field_interp a b c d fa fb fc fd d = fd) /\
+  (forall g k p, field_interp a b c d (vdot g a + k) (vdot g b + k) (vdot g c + k) (vdot g d + k) p = vdot g p + k) /\
+  (forall gx gy gz k p, let w q := V3 (vdot gx q + vx k) (vdot gy q + vy k) (vdot gz q + vz k) in
+     wind_interp a b c d (w a) (w b) (w c) (w d) p = w p) /\
+  (forall fa fb fc fd p lo hi, in_tet a b c d p -> lo <= fa <= hi -> lo <= fb <= hi -> lo <= fc <= hi -> lo <= fd <= hi ->
+     lo <= field_interp a b c d fa fb fc fd p <= hi) /\
+  (forall d' fa fb fc fd fd' p, tet_volume6 a b c d' <> 0 -> (let '(_, _, _, l3) := bary a b c d p in l3 = 0) ->
+     field_interp a b c d fa fb fc fd p = field_interp a b c d' fa fb fc fd' p).
+Proof.
+  intros a b c d HD. repeat split.
+  1-4: apply interp_nodes; exact HD.
+  - intros; apply interp_affine; exact HD.
+  - intros; apply wind_affine; exact HD.
+  - eapply interp_bounds; eassumption.
+  - eapply interp_bounds; eassumption.
+  - intros; apply interp_shared_face; assumption.
+Qed.
+Print Assumptions C17_field_tables.
+
+(* the weights used are the only ones that sum to one and reproduce the point: any other evaluation of "linear on the simplex" is this one *)
+Theorem C17_field_weights_unique : forall (a b c d p : v3 R) m0 m1 m2 m3, tet_volume6 a b c d <> 0 ->
+  m0 + m1 + m2 + m3 = 1 -> comb m0 m1 m2 m3 a b c d = p -> bary a b c d p = (m0, m1, m2, m3).
+Proof. exact bary_unique. Qed.
+Print Assumptions C17_field_weights_unique.
+
+Example C17_field_example :
+  let a := V3 0 0 0 in let b := V3 1 0 0 in let c := V3 0 1 0 in let d := V3 0 0 1 in
+  tet_volume6 a b c d <> 0 /\ in_tet a b c d (V3 (1/4) (1/4) (1/4)) /\ field_interp a b c d 1 2 3 5 (V3 (1/4) (1/4) (1/4)) = 11/4.
+Proof. exact unit_tet_inside. Qed.
